@@ -64,6 +64,7 @@ def deep(tracks, counters: bool = False) -> dict:
     activation, lookup tables, history stacks."""
     g = tracks.graph
     d = canon(tracks)
+    d["graph_attrs"] = tuple(sorted((str(k), repr(norm(v))) for k, v in g.graph.items()))
     d["scale"] = None if tracks.scale is None else norm(list(tracks.scale))
     f = tracks.features
     d["features"] = {k: norm(dict(v)) for k, v in f.items()}
